@@ -434,7 +434,11 @@ func RunCampaign(env *Env, p Property, opt Options, st *Stats) (*Report, error) 
 			if c == nil {
 				continue
 			}
+			t0 := time.Now()
 			out, err := p.Evaluate(env, c)
+			if d := time.Since(t0); d > 5*time.Second && os.Getenv("CRDSIM_SLOW") != "" {
+				fmt.Fprintf(os.Stderr, "slow case: run %d %.1fs labels=%v argv=%v input=%d bytes\n", c.Run, d.Seconds(), c.Labels, c.Steps[0].Argv, len(inputOf(c)))
+			}
 			if err != nil {
 				mu.Lock()
 				if firstErr == nil {
